@@ -125,6 +125,37 @@ theorem scaledBack_eq (c a : Nat) : scaledBack c a = VaxisModel.Lemmas.ScalerByt
   simp only [load, storeSrc, conv, rgbaRGBA, C16.ofQuad, toRGB, u8, u32]
   by_cases h : a * 257 / 256 % 256 * 257 = 0 <;> simp [h]
 
+/-! ### The alpha byte goes through unchanged -/
+
+theorem alpha_byte (a : Nat) (ha : a < 256) : a * 257 / 256 % 256 = a := by
+  have e : a * 257 / 256 = a := by omega
+  rw [e]; exact Nat.mod_eq_of_lt ha
+
+theorem toRGB_alpha (c : C16) (a : Nat) (h : c.a = a * 257) (ha : a < 256) : (toRGB c).a = a := by
+  by_cases h0 : a = 0
+  · subst h0
+    rw [VaxisModel.Lemmas.ImageFit.toRGB_of_zero c (by rw [h])]
+  · rw [VaxisModel.Lemmas.ImageFit.toRGB_of_ne c (by rw [h]; omega)]
+    show c.a / 256 % 256 = a
+    rw [h]; exact alpha_byte a ha
+
+theorem conv_alpha (k : Kind) (p : P8) : (conv k p).a = p.a * 257 := by
+  cases k <;> rfl
+
+theorem load_alpha (k : Kind) (p : P8) : (load k p).a = p.a * 257 := by
+  cases k <;> rfl
+
+theorem scaledPx_alpha (over : Bool) (src : Img8) (dw dh dx dy : Nat)
+    (ha : (src.pix (nnIndex dx src.w dw) (nnIndex dy src.h dh)).a < 256) :
+    (scaledPx over src dw dh dx dy).a = (src.pix (nnIndex dx src.w dw) (nnIndex dy src.h dh)).a := by
+  have key : (storeSrc (load src.kind (src.pix (nnIndex dx src.w dw) (nnIndex dy src.h dh)))).a =
+      (src.pix (nnIndex dx src.w dw) (nnIndex dy src.h dh)).a := by
+    show (load src.kind _).a / 256 % 256 = _
+    rw [load_alpha]; exact alpha_byte _ ha
+  cases over
+  · simp only [scaledPx, Bool.false_eq_true, if_false]; exact key
+  · simp only [scaledPx, if_true, storeOver_zero]; exact key
+
 /-! ### `resizeImg`: either the image itself or the scaling to the size `resizeDims` computes -/
 
 theorem resizeImg_cases (cfg : Cfg) (F : FloatOps) (src : Img8) (w h cellW cellH : Nat) (img : Img8)
